@@ -130,16 +130,24 @@ def expectedHeap (scale : ScaleFn) (d : HeapDoc) : Profile :=
   finish (heapHeader d.hasAlloc d.period) ss ss (tailMappings d.map)
 
 /-! ### parser (mirrors `parseHeap`, `parseHeapHeader`, `parseHeapSample`) -/
-/-- ` *(\d+): *(\d+) *\[ *(\d+): *(\d+) *\]` → four captures, rest -/
-def reFourNumbers (s : Str) : Option (Str × Str × Str × Str × Str) := do
+/-- ` *(\d+):` → capture, rest -/
+def reNumColon (s : Str) : Option (Str × Str) := do
   let (a, s) ← reDigits (skipSp s)
   let s ← stripPrefix [58] s
-  let (b, s) ← reDigits (skipSp s)
-  let s ← stripPrefix [91] (skipSp s)
-  let (c, s) ← reDigits (skipSp s)
-  let s ← stripPrefix [58] s
-  let (d, s) ← reDigits (skipSp s)
-  let s ← stripPrefix [93] (skipSp s)
+  pure (a, s)
+
+/-- ` *(\d+) *c` for a literal byte `c` → capture, rest -/
+def reNumThen (c : UInt8) (s : Str) : Option (Str × Str) := do
+  let (a, s) ← reDigits (skipSp s)
+  let s ← stripPrefix [c] (skipSp s)
+  pure (a, s)
+
+/-- ` *(\d+): *(\d+) *\[ *(\d+): *(\d+) *\]` → four captures, rest -/
+def reFourNumbers (s : Str) : Option (Str × Str × Str × Str × Str) := do
+  let (a, s) ← reNumColon s
+  let (b, s) ← reNumThen 91 s
+  let (c, s) ← reNumColon s
+  let (d, s) ← reNumThen 93 s
   pure (a, b, c, d, s)
 
 def isHeapNameByte (b : UInt8) : Bool := b.toNat == 95 || isDigit b || decide (97 ≤ b.toNat ∧ b.toNat ≤ 122)
@@ -177,16 +185,12 @@ def parseHeapHeader (line : Str) : Outcome (Bool × Nat × Bool) :=
       else if name == asc "heap" then .ok (true, period / 2, hasAlloc)
       else .err "unrecognized"
 
-/-- heapSampleRE at one position (non-negative counts) → four captures and the address text -/
+/-- heapSampleRE `(\d+): *(\d+) *\[ *(\d+): *(\d+) *] @([ x0-9a-f]*)` at one position (non-negative
+counts; blanks in front of the first number are skipped, which gives the captures of the
+regexp's leftmost match) → four captures and the address text -/
 def matchHeapSampleAt (s : Str) : Option (Str × Str × Str × Str × Str) := do
-  let (a, s) ← reDigits s
-  let s ← stripPrefix [58] s
-  let (b, s) ← reDigits (skipSp s)
-  let s ← stripPrefix [91] (skipSp s)
-  let (c, s) ← reDigits (skipSp s)
-  let s ← stripPrefix [58] s
-  let (d, s) ← reDigits (skipSp s)
-  let s ← stripPrefix (asc "] @") (skipSp s)
+  let (a, b, c, d, s) ← reFourNumbers s
+  let s ← stripPrefix (asc " @") s
   pure (a, b, c, d, s.takeWhile (fun x => x.toNat == 32 || x.toNat == 120 || isHexLower x))
 
 /-- `parseHeapSample` -/
